@@ -336,5 +336,5 @@ func (p *Program) anyWFDef() string {
 	isInt := and(app("<=", num(int64(p.tagOf(types.Typ[types.Int]))), "(a.tag x)"), app("<=", "(a.tag x)", num(int64(p.tagOf(types.Typ[types.Uint64])))))
 	return "(define-fun is_ptr_tag ((x Any)) Bool " + or(ds...) + ")\n" +
 		"(define-fun is_int_tag ((x Any)) Bool " + isInt + ")\n" +
-		"(define-fun is_wf_any ((x Any)) Bool (and (<= 0 (a.tag x)) (=> (= (a.tag x) 0) (= x nil_any)) (=> (is_ptr_tag x) (and (< 0 (a.i x)) (= x (mk-any (a.tag x) (a.i x) str_empty false flt_zero)))) " + and(rs...) + "))\n"
+		"(define-fun is_wf_any ((x Any)) Bool (and (<= 0 (a.tag x)) (=> (= (a.tag x) 0) (= x nil_any)) (=> (is_ptr_tag x) (< 0 (a.i x))) " + and(rs...) + "))\n"
 }
